@@ -58,16 +58,17 @@ theorem pyMin0_fin (r : Rat) : pyMin0 (fin r) = fin (min 0 r) := by
     `r` and a finite value at the proposal the kernel accepts iff `l ≤ min 0 r`. -/
 theorem accepts_fin_iff (k : Kernel) (l r t : Rat) :
     accepts k (fin l) (fin r) (fin t) = true ↔ l ≤ min 0 r := by
-  unfold accepts
+  unfold accepts acceptsG
   rw [pyMin0_fin]
   simp [le, isNan, isInf]
 
-/-- **Accept iff (guarded kernels, any IEEE values):** experimental MH, CWMH and MALA accept iff
-    `log u ≤ min(0, ratio)` (IEEE/Python semantics) and the value at the proposal is finite. -/
+/-- **Accept iff (kernels with both guards, any IEEE values):** MH, CWMH, PCN/pCN in both
+    interfaces and experimental MALA accept iff `log u ≤ min(0, ratio)` (IEEE/Python semantics)
+    and the value at the proposal is finite. -/
 theorem accepts_guarded_iff (k : Kernel) (hn : k.guardNan = true) (hi : k.guardInf = true)
     (ell ratio t : XVal) :
     accepts k ell ratio t = true ↔ (le ell (pyMin0 ratio) = true ∧ t.isFinite = true) := by
-  unfold accepts
+  unfold accepts acceptsG
   cases t <;> simp [hn, hi, isNan, isInf, isFinite]
 
 /-- **A NaN or ±inf proposal is never accepted by the guarded kernels**, whatever the uniform
@@ -79,41 +80,54 @@ theorem guarded_never_accepts_nonfinite (k : Kernel) (hn : k.guardNan = true) (h
   · rfl
   · rw [h] at this; simp [ht] at this
 
-example : Kernel.expMH.guardNan = true ∧ Kernel.expMH.guardInf = true ∧ Kernel.expCWMH.guardNan = true ∧
-    Kernel.expCWMH.guardInf = true ∧ Kernel.expMALA.guardNan = true ∧ Kernel.expMALA.guardInf = true := by decide
+/-- the kernels carrying both guards: all but legacy MALA -/
+def fullyGuarded (k : Kernel) : Bool := k.guardNan && k.guardInf
 
-/-- Legacy MALA (`np.isnan(..) == False` only) never accepts a NaN proposal. -/
-theorem nanGuard_never_accepts_nan (k : Kernel) (hn : k.guardNan = true) (ell ratio : XVal) :
-    accepts k ell ratio nan = false := by
-  unfold accepts; simp [hn, isNan]
+example : ∀ k : Kernel, fullyGuarded k = true ↔ k ≠ .legMALA := by intro k; cases k <;> decide
 
-/-- **Code-faithful negative result (legacy MH, legacy CWMH, legacy pCN, experimental PCN):**
-    without the NaN guard a NaN proposal is accepted for EVERY uniform draw `u ∈ [0, 1]`
-    (`log u ≤ 0`), because `value − cached = NaN` and Python's `min(0, NaN) = 0`. -/
-theorem unguarded_accepts_nan (k : Kernel) (hn : k.guardNan = false) (hi : k.guardInf = false)
-    (ell cached : XVal) (hu : le ell (fin 0) = true) :
-    accepts k ell (nan.sub cached) nan = true := by
-  unfold accepts
+/-- **A proposal whose log-density is NaN or ±inf is never accepted** by MH, CWMH, PCN/pCN
+    (both interfaces) and experimental MALA — every uniform draw (u = 0 included), every cached
+    value (NaN / ±inf included), every ratio. -/
+theorem never_accepts_nonfinite (k : Kernel) (hk : k ≠ .legMALA) (ell ratio t : XVal)
+    (ht : t.isFinite = false) : accepts k ell ratio t = false := by
+  have h : k.guardNan = true ∧ k.guardInf = true := by cases k <;> simp_all [Kernel.guardNan, Kernel.guardInf]
+  exact guarded_never_accepts_nonfinite k h.1 h.2 ell ratio t ht
+
+/-- Every kernel (legacy MALA included: `np.isnan(..) == False`) never accepts a NaN proposal. -/
+theorem never_accepts_nan (k : Kernel) (ell ratio : XVal) : accepts k ell ratio nan = false := by
+  unfold accepts acceptsG; cases k <;> simp [Kernel.guardNan, isNan]
+
+/-- Abstract fact about an accept test WITHOUT guards (no longer a statement about CUQIpy since
+    /repo commit d1cc7b3; it is why the guards are needed): a NaN proposal passes for every
+    `u ∈ [0,1]` because `value − cached = NaN` and Python's `min(0, NaN) = 0`. -/
+lemma unguarded_test_accepts_nan (ell cached : XVal) (hu : le ell (fin 0) = true) :
+    acceptsG false false ell (nan.sub cached) nan = true := by
+  unfold acceptsG
   have : nan.sub cached = nan := by cases cached <;> rfl
   rw [this]
-  simpa [hn, hi, pyMin0, lt] using hu
+  simpa [pyMin0, lt] using hu
 
-/-- … and a `-inf` proposal is accepted when `u = 0` (`log u = -inf`), from any finite state. -/
+/-- **Code-faithful negative result (legacy MALA, the only kernel left without the inf guard):**
+    a `-inf` proposal is accepted when `u = 0` (`log u = -inf`), from any finite state … -/
 theorem unguarded_accepts_neginf (k : Kernel) (hi : k.guardInf = false) (c : Rat) :
     accepts k neginf (neginf.sub (fin c)) neginf = true := by
-  unfold accepts
+  unfold accepts acceptsG
   cases k <;> simp_all [Kernel.guardInf, Kernel.guardNan, pyMin0, lt, le, sub, neg, add, isNan, isInf]
 
-/-- legacy MALA: the witness with a `-inf` cached value and ANY uniform draw `u ∈ (0,1]`. -/
+example : Kernel.legMALA.guardInf = false := rfl
+
+/-- … and, from a `-inf` cached value, for ANY uniform draw `u ∈ (0,1]` (ratio = NaN,
+    `min(0, NaN) = 0`). -/
 theorem legMALA_accepts_neginf (l : Rat) (hl : l ≤ 0) (logq : Rat) :
     accepts .legMALA (fin l) ((neginf.sub neginf).add (fin logq)) neginf = true := by
-  simp [accepts, Kernel.guardInf, Kernel.guardNan, pyMin0, lt, le, sub, neg, add, isNan, hl]
+  simp [accepts, acceptsG, Kernel.guardInf, Kernel.guardNan, pyMin0, lt, le, sub, neg, add, isNan, hl]
 
-/-- **Partial positive result for the kernels without the inf guard:** from a finite cached value
-    and a non-zero uniform draw (`log u` finite) a `-inf` proposal is rejected. -/
-theorem unguarded_rejects_neginf_partial (k : Kernel) (l c : Rat) :
+/-- **Partial positive result (needed for legacy MALA only):** from a finite cached value and a
+    non-zero uniform draw (`log u` finite) a `-inf` proposal is rejected by every kernel, with or
+    without the inf guard. -/
+theorem rejects_neginf_partial (k : Kernel) (l c : Rat) :
     accepts k (fin l) (neginf.sub (fin c)) neginf = false := by
-  unfold accepts
+  unfold accepts acceptsG
   simp [pyMin0, lt, le, sub, neg, add]
 
 /-! ### the four single-proposal step functions -/
@@ -175,12 +189,24 @@ theorem malaStep_frame (k : Kernel) (logd : Vec → XVal) (gradf : Vec → Vec) 
   unfold malaStep
   exact metropolis_frame ..
 
-/-- Experimental MH / MALA never move to a point whose log-density is NaN or ±inf. -/
-theorem expMH_accept_finite (logd : Vec → XVal) (st : St) (xi : Vec) (ell : XVal)
-    (h : (mhStep .expMH logd st xi ell).2 = true) : (logd (mhPropose st xi)).isFinite = true := by
+/-- **MH and pCN (both interfaces) and experimental MALA never move to a point whose
+    log-density (log-likelihood for pCN) is NaN or ±inf** — any state, scale, draw. -/
+theorem mhStep_accept_finite (k : Kernel) (hk : k ≠ .legMALA) (logd : Vec → XVal) (st : St) (xi : Vec)
+    (ell : XVal) (h : (mhStep k logd st xi ell).2 = true) : (logd (mhPropose st xi)).isFinite = true := by
   unfold mhStep at h
   rw [metropolis_acc] at h
-  exact ((accepts_guarded_iff .expMH rfl rfl _ _ _).1 h).2
+  cases hf : (logd (mhPropose st xi)).isFinite
+  · rw [never_accepts_nonfinite k hk _ _ _ hf] at h; exact absurd h (by simp)
+  · rfl
+
+theorem pcnStep_accept_finite (k : Kernel) (hk : k ≠ .legMALA) (loglik : Vec → XVal) (c : Rat) (st : St)
+    (xi : Vec) (ell : XVal) (h : (pcnStep k loglik c st xi ell).2 = true) :
+    (loglik (pcnPropose st c xi)).isFinite = true := by
+  unfold pcnStep at h
+  rw [metropolis_acc] at h
+  cases hf : (loglik (pcnPropose st c xi)).isFinite
+  · rw [never_accepts_nonfinite k hk _ _ _ hf] at h; exact absurd h (by simp)
+  · rfl
 
 theorem expMALA_accept_finite (logd : Vec → XVal) (gradf : Vec → Vec) (sigma : Rat) (st : St) (z : Vec)
     (ell : XVal) (h : (malaStep .expMALA logd gradf sigma st z ell).2 = true) :
@@ -189,10 +215,18 @@ theorem expMALA_accept_finite (logd : Vec → XVal) (gradf : Vec → Vec) (sigma
   rw [metropolis_acc] at h
   exact ((accepts_guarded_iff .expMALA rfl rfl _ _ _).1 h).2
 
+/-- legacy MALA never moves to a NaN point (it may move to `-inf`: `legMALA_accepts_neginf`). -/
+theorem legMALA_accept_not_nan (logd : Vec → XVal) (gradf : Vec → Vec) (sigma : Rat) (st : St) (z : Vec)
+    (ell : XVal) (h : (malaStep .legMALA logd gradf sigma st z ell).2 = true) :
+    (logd (malaPropose st sigma z)).isNan = false := by
+  unfold malaStep at h
+  rw [metropolis_acc] at h
+  cases hv : logd (malaPropose st sigma z) <;> simp_all [isNan, never_accepts_nan]
+
 example : (mhStep .expMH (fun _ => fin (-2)) ⟨[1, 2], fin (-3), [], [1/2]⟩ [1, 1] (fin (-1/2))).2 = true := by
   decide +kernel
 
-example : (mhStep .legMH (fun _ => nan) ⟨[1, 2], fin (-3), [], [1/2]⟩ [1, 1] (fin (-1/2))).2 = true := by
+example : (mhStep .legMH (fun _ => nan) ⟨[1, 2], fin (-3), [], [1/2]⟩ [1, 1] (fin (-1/2))).2 = false := by
   decide +kernel
 
 /-! ### the component-wise loop, every dimension -/
@@ -251,14 +285,16 @@ theorem cwStep_eq_fold (k : Kernel) (logd : Nat → Vec → XVal) (st : St) (z :
   simp only at this
   rw [← this]
 
-/-- One-coordinate step of experimental CWMH never installs a non-finite value. -/
-theorem expCWMH_component_finite (logd : Nat → Vec → XVal) (xall : Vec) (ells : List XVal)
-    (s : Vec × XVal) (j : Nat) (h : cwSimple .expCWMH logd xall ells s j ≠ s) :
-    (cwSimple .expCWMH logd xall ells s j).2.isFinite = true := by
+/-- One-coordinate step of CWMH (both interfaces; any kernel with both guards) never installs a
+    non-finite value. -/
+theorem cwmh_component_finite (k : Kernel) (hn : k.guardNan = true) (hi : k.guardInf = true)
+    (logd : Nat → Vec → XVal) (xall : Vec) (ells : List XVal)
+    (s : Vec × XVal) (j : Nat) (h : cwSimple k logd xall ells s j ≠ s) :
+    (cwSimple k logd xall ells s j).2.isFinite = true := by
   unfold cwSimple at h ⊢
   simp only at h ⊢
   split at h
-  · next hacc => rw [if_pos hacc]; exact ((accepts_guarded_iff .expCWMH rfl rfl _ _ _).1 hacc).2
+  · next hacc => rw [if_pos hacc]; exact ((accepts_guarded_iff k hn hi _ _ _).1 hacc).2
   · exact absurd rfl h
 
 example : (cwStep .expCWMH (fun j _ => [fin (-1/4), fin (-5)].getD j nan) ⟨[0, 0], fin 0, [], [1]⟩ [1, 2]
